@@ -76,7 +76,9 @@ impl Scenario for PokClock {
                 // 5 negative (verifier clock behind the prover / timestamp in the future), 6 whatever the network gives
                 let pos = match class {
                     "ts-future" => 5,
-                    _ => *x.pick(&[0, 0, 1, 1, 2, 3, 3, 4, 6, 6]),
+                    // 7: a very old proof whose age is a whole number of 2^32 (2^33, 2^34) milliseconds plus less than the timeout
+                    // (49.7 days and a bit: what an age kept in 32 bits makes of it)
+                    _ => *x.pick(&[0, 0, 1, 1, 2, 3, 3, 4, 6, 6, 7]),
                 };
                 p.set("pos", pos);
                 p.set("jitter_ns", x.below(1_000_000) as i64);
@@ -264,6 +266,7 @@ impl<'a> World<'a> {
             let target_e: Option<i128> = match (pos, timeout) {
                 (5, _) => Some(-(self.plan.get("future_ms") as i128) * 1_000_000 + jitter),
                 (_, None) => None,
+                (7, Some(tt)) if tt < (1u64 << 31) => Some(((1i128 << (32 + jitter.rem_euclid(3))) + (tt as i128) / 2) * 1_000_000 + jitter.rem_euclid(1000)),
                 (_, Some(tt)) if tt >= (1u64 << 40) => match pos {
                     0 | 1 | 2 | 3 | 4 => Some(jitter + (pos as i128) * 1_000_000_000),
                     _ => None,
